@@ -1138,6 +1138,91 @@ fn rw_cancel_vs_writer_and_reader() {
     });
 }
 
+/// C01 / C14: try_lock_arc on one thread against try_lock, try_lock_arc and the first poll of lock_arc() on another:
+/// never two guards of one Mutex alive at once; afterwards the mutex is free again.
+fn mutex_try_race() {
+    let mut b = loom::model::Builder::new();
+    b.preemption_bound = bound();
+    b.check(|| {
+        EXECUTIONS.fetch_add(1, std::sync::atomic::Ordering::Relaxed);
+        let m = std::sync::Arc::new(Mutex::new(0u32));
+        let m2 = m.clone();
+        let t = loom::thread::spawn(move || m2.try_lock_arc());
+        let a = m.try_lock_arc();
+        let c = t.join().unwrap();
+        if a.is_some() && c.is_some() {
+            panic!("LOOM-VIOLATION mutex_try_race: exclusion: two try_lock_arc calls returned a guard and both guards are alive");
+        }
+        drop(a);
+        drop(c);
+        let m2 = m.clone();
+        let t = loom::thread::spawn(move || m2.try_lock_arc());
+        let a = m.try_lock();
+        let c = t.join().unwrap();
+        if a.is_some() && c.is_some() {
+            panic!("LOOM-VIOLATION mutex_try_race: exclusion: try_lock and try_lock_arc returned a guard and both guards are alive");
+        }
+        drop(a);
+        drop(c);
+        let m2 = m.clone();
+        let t = loom::thread::spawn(move || m2.try_lock_arc());
+        let mut tl = Task::new(m.lock_arc());
+        tl.poll();
+        let c = t.join().unwrap();
+        if tl.out.is_some() && c.is_some() {
+            panic!("LOOM-VIOLATION mutex_try_race: exclusion: the first poll of lock_arc() and a try_lock_arc returned a guard and both guards are alive");
+        }
+        drop(c);
+        tl.settle();
+        if tl.pending() {
+            panic!("LOOM-VIOLATION mutex_try_race: lost wake-up: the mutex is free, every woken task has been polled again, the lock_arc() is pending");
+        }
+        drop(tl);
+        if m.try_lock().is_none() {
+            panic!("LOOM-VIOLATION mutex_try_race: nothing is alive and try_lock fails");
+        }
+        if std::sync::Arc::strong_count(&m) != 1 {
+            panic!("LOOM-VIOLATION mutex_try_race: every guard, future and other handle is gone and the strong count of the Arc is {}", std::sync::Arc::strong_count(&m));
+        }
+    });
+}
+
+/// C03 / C14 / C15: one permit; try_acquire_arc on one thread against try_acquire (borrowed) and try_acquire_arc on
+/// another: never two permits out at once; afterwards the permit is back (exactly one) and the Arc is owned only by the
+/// remaining handle.
+fn sem_try_forms_race() {
+    let mut b = loom::model::Builder::new();
+    b.preemption_bound = bound();
+    b.check(|| {
+        EXECUTIONS.fetch_add(1, std::sync::atomic::Ordering::Relaxed);
+        let sem = std::sync::Arc::new(Semaphore::new(1));
+        let s2 = sem.clone();
+        let t = loom::thread::spawn(move || s2.try_acquire_arc());
+        let a = sem.try_acquire();
+        let c = t.join().unwrap();
+        if a.is_some() && c.is_some() {
+            panic!("LOOM-VIOLATION sem_try_forms_race: over-issue: try_acquire and try_acquire_arc both returned a guard on a semaphore with one permit");
+        }
+        drop(a);
+        drop(c);
+        let s2 = sem.clone();
+        let t = loom::thread::spawn(move || { let g = s2.try_acquire_arc(); drop(g); });
+        let g = sem.try_acquire_arc();
+        drop(g);
+        t.join().unwrap();
+        let p1 = sem.try_acquire();
+        let p2 = sem.try_acquire();
+        if p1.is_none() || p2.is_some() {
+            panic!("LOOM-VIOLATION sem_try_forms_race: conservation: every guard is gone and the semaphore of one permit hands out {} permits", p1.is_some() as usize + p2.is_some() as usize);
+        }
+        drop(p1);
+        drop(p2);
+        if std::sync::Arc::strong_count(&sem) != 1 {
+            panic!("LOOM-VIOLATION sem_try_forms_race: every guard and other handle is gone and the strong count of the Arc is {} (a reference was leaked or over-released)", std::sync::Arc::strong_count(&sem));
+        }
+    });
+}
+
 fn main() {
     let which = std::env::args().nth(1).unwrap_or_else(|| "all".to_string());
     let tests: Vec<(&str, fn())> = vec![
@@ -1156,6 +1241,8 @@ fn main() {
         ("rw_writer_announced", rw_writer_announced),
         ("mutex_starved_try", mutex_starved_try),
         ("blocking_forms", blocking_forms),
+        ("mutex_try_race", mutex_try_race),
+        ("sem_try_forms_race", sem_try_forms_race),
         ("mutex_starve_vs_unlock", mutex_starve_vs_unlock),
         ("rw_cancel_vs_writer_and_reader", rw_cancel_vs_writer_and_reader),
         ("barrier_three_arrivals", barrier_three_arrivals),
